@@ -163,7 +163,8 @@ def spellings(base: str, trail: bool) -> dict:
     """string -> feature tuple (the fewest features that produce this string)."""
     out: dict = {}
     if base == '':
-        return {'': ()}
+        # the root has spellings of its own: the current-folder component, alone and with a separator
+        return {'': (), '.': ('dot',), './': ('dot', 'trail_fwd'), '.\\': ('dot', 'trail_back')} if trail else {'': ()}
     for case in ('exact', 'upper', 'lower'):
         for back in (False, True):
             for dot in (False, True):
@@ -822,6 +823,38 @@ def extras_battery(acc: core.Acc, workdir: str) -> None:
                         break
             except Exception as exc:  # noqa: BLE001
                 acc.fail('walk_raises', case, f'{backend} chain {shape} with case twins: {type(exc).__name__}: {exc}', backend=backend, op='walk')
+    # (3) in-memory file systems holding TEXT: two systems (alone, and as the two members of a chain) with the same name - in
+    # every case/slash spelling - and different text or a different encoding, read one after the other in both orders and through
+    # every reading operation; each answers with its own text in its own encoding, and a zip with the same bytes agrees
+    texts = [('utf8', 'gr\u00fcn'), ('utf8', 'blau'), ('latin-1', 'gr\u00fcn'), ('utf-16-le', 'blau')]
+    for (enc1, t1), (enc2, t2) in itertools.permutations(texts, 2):
+        for n1, n2 in (('cfg/a.txt', 'cfg/a.txt'), ('cfg/a.txt', 'CFG\\A.TXT')):
+            for first_op in ('open_bin', 'open_str', 'getitem'):
+                acc.evaluations += 1
+                acc.nontrivial += 1
+                case = {'part': 'extras', 'what': 'virtual_text_pair', 'first': [enc1, t1, n1], 'second': [enc2, t2, n2], 'first_op': first_op}
+                try:
+                    v1 = VirtualFileSystem({n1: t1}, encoding=enc1)
+                    v2 = VirtualFileSystem({n2: t2}, encoding=enc2)
+                    if first_op == 'open_bin':
+                        got1 = read_all(lambda: v1.open_bin('cfg/a.txt'))
+                    elif first_op == 'open_str':
+                        with v1.open_str('cfg/a.txt') as fh:
+                            got1 = fh.read().encode(enc1)
+                    else:
+                        got1 = read_all(v1['cfg/a.txt'].open_bin)
+                    got2 = read_all(lambda: v2.open_bin('cfg/a.txt'))
+                    with v2.open_str('cfg/a.txt') as fh:
+                        got2s = fh.read()
+                    chain = FileSystemChain(v2, v1)
+                    got_chain = read_all(lambda: chain.open_bin('cfg/a.txt'))
+                    want1, want2 = t1.encode(enc1), t2.encode(enc2)
+                    if got1 != want1 or got2 != want2 or got2s != t2 or got_chain != want2:
+                        acc.fail('virtual_text_wrong', case, f'VirtualFileSystem({{{n1!r}: {t1!r}}}, {enc1}) read by {first_op} gave {got1!r}; then '
+                                 f'VirtualFileSystem({{{n2!r}: {t2!r}}}, {enc2}).open_bin gave {got2!r} (expected {want2!r}), open_str {got2s!r}, '
+                                 f'chain(second, first).open_bin {got_chain!r}', backend='virtual', op='open_bin')
+                except Exception as exc:  # noqa: BLE001
+                    acc.fail('virtual_text_wrong', case, f'{type(exc).__name__}: {exc}', backend='virtual', op='open_bin')
     # (2)
     files = [('materials/x.vmt', b'<x>'), ('a.txt', b'<a>')]
     zpath = materialise(os.path.join(workdir, 'shared_zip'), 'zip', files)
